@@ -7,7 +7,7 @@ CONFIG = {
         "name": "turn", "modules": ["Base.NumOps", "Model.Turn", "Model.TurnCheck"],
         "check": "check_case", "monitor": "monitor_case", "model_out": "model_out",
         "case_type": "case", "ops_path": [],
-        "n_quick": 600, "n_thorough": 30000, "shard": 300,
+        "n_quick": 900, "n_thorough": 30000, "shard": 300,
     }],
     "rule": "histories of 5-60 turn-manager operations (add/remove units, start turn, end of action, set/advance/"
             "delay gauge by gauge, by normalized amount and by AV, set/modify gauge cost incl. fractional and "
